@@ -12,8 +12,9 @@ def sh(cmd, **kw):
 for arg in sys.argv[1:]:
     sid, _, extra = arg.partition(":")
     prop, n = sid.split("/")
-    src = Path(f"/tmp/seed/{prop}/out/{n}")
-    dst = V / "seeded" / f"{prop}-{n}"
+    import os
+    src = Path(os.environ.get("SEED_BASE", "/tmp/seed")) / prop / "out" / n
+    dst = V / "seeded" / f"{prop}-{int(n) + int(os.environ.get('NOFF', '0'))}"
     dst.mkdir(parents=True, exist_ok=True)
     for f in ("patch.diff", "demo.py", "meta.json"):
         if (src / f).exists():
